@@ -31,6 +31,8 @@ func checkC02(c *Ctx) {
 	r.Rule("R02.3", "the payload ends with a newline: the argument of the sink is pc.Bytes() taken right after End(true), End's newline branch appends '\\n' last, and the blank-line shortcut passes exactly []byte{'\\n'}")
 	r.Rule("R02.5", "no explicit failure on the logging path: in every function statically reachable from the entry points down to the sink there is no panic outside the allow-table, no single-result type assertion except on a sync.Pool value, and no constant index into a variadic argument slice that is not guarded by a length test")
 	r.Rule("R02.6", "the pooled formatting buffer is used by one record at a time: it is returned to the pool only after the Write that hands its bytes to the destination (Put post-dominates the emission), and is not used after Put")
+	r.Rule("R02.7", "a destination that reported success gets no further record: every call from the sink or its failure helpers back into the logging entry points is on the taken edge of e != nil where every definition reaching e is the error result of the destination's Write (followed through error parameters over all static call sites)")
+	r.Rule("R02.8", "constant positions are within the tested length: in every function of the print tree an index or re-slice at a constant position of a slice or string is dominated by length tests (len(x) against constants in any relation and polarity, constant prefix/suffix tests, non-empty tests) or a definition (constant, make, constant re-slice, Split) that establish at least that length")
 	r.Assume("destinations do not split or retain the payload; values whose own methods panic are outside the property")
 	for _, tags := range c.Configs([]string{""}, []string{"", "verbose", "hint", "verbose,hint"}) {
 		p := c.Prog(tags)
@@ -48,10 +50,14 @@ func checkC02(c *Ctx) {
 		c02NoFailure(c, p, m, tags)
 		searchIndexStepBack(c, p, m)
 		c02Pool(c, p, m)
+		noDiagnosticOnSuccess(c, p, m)
+		constBounds(c, p, m)
+		callerArgsUntouched(c, p, "R10.7")
 		c03Routing(c, p, m)
 		c01Gates(c, p, m, tags)
 		c13Fanout(c, p, m)
 	}
+	r.Rule("R10.7", "(shared with C10) whatever the argument list: no function stores into an element of its variadic or []any parameter")
 	r.Rule("R01.1", "(shared with C01) not admitted means no destination is written: every path from an entry point to the Write crosses the admitting edge of the logger's own gate")
 	r.Rule("R13.1", "(shared with C13) every destination selected receives the record: the fan-out loop has its natural exit only, ranges over every member and hands each the whole payload")
 	r.Rule("R03.1", "(shared with C03) the destination selected for a severity is never an empty per-level list while a documented alternative exists: the routing decision function equals the documented one")
